@@ -1033,8 +1033,10 @@ def cast(x, dtype, name=None):
         if x._dtype == dt:
             return _t(x)
         return Tensor(_cast_arr(x.arr, dt), dt)
-    a = _arr(x)
-    return Tensor(_cast_arr(a, dt), dt)
+    # TensorFlow converts first (a Python float becomes a float32 tensor,
+    # losing precision) and casts afterwards
+    t = convert_to_tensor(x)
+    return Tensor(_cast_arr(t.arr, dt), dt)
 
 
 def stop_gradient(x, name=None):
@@ -1079,9 +1081,10 @@ def where(condition, x=None, y=None, name=None):
 
     def f(cc, a, b):
         if isinstance(cc, SymBool):
-            if cc.t is T.TRUE:
+            kt = S.known_truth(cc.t)
+            if kt is True:
                 return a
-            if cc.t is T.FALSE:
+            if kt is False:
                 return b
             if isinstance(a, (SymComplex, _py_complex, np.complexfloating)) or isinstance(b, (SymComplex, _py_complex, np.complexfloating)):
                 a, b = SymComplex._co(a), SymComplex._co(b)
@@ -1636,7 +1639,7 @@ def _polyval(coeffs, x, name=None):
     x = _t(x)
     if len(coeffs) == 0:
         return zeros_like(x)
-    p = _t(coeffs[0]) + zeros_like(x)
+    p = _t(coeffs[0])
     for c in coeffs[1:]:
         p = add(_t(c), multiply(p, x))
     return p
